@@ -82,6 +82,8 @@ def basic_project(rng, cid, tier, classes=None, stats=None, n_stages=None, allow
         ins = []
         base = (b"st%d" % s) if rng.random() < 0.5 else (b"deep/er/st%d" % s)
         kinds = rng.sample(["dir", "file", "norec", "skip"], rng.randrange(1, 4))
+        if wide and "dir" not in kinds:
+            kinds = ["dir"] + kinds          # a wide case always has the plain directory output that gets the many files
         for k in kinds:
             if k == "dir" or (k == "norec" and allow_norec):
                 p = base + b"_" + k.encode()
